@@ -7,6 +7,10 @@ def run(req):
     a = req.get("args", {})
     if fn in ("trajgrad.trap_grad", "trajgrad.min_trap_grad"):
         return _trap(fn, a)
+    if fn == "rf.bloch":
+        return _bloch(a)
+    if fn == "rf.slr":
+        return _slr(a)
     if fn == "samp.poisson":
         return _poisson(a)
     if fn == "conv.check":
@@ -1109,3 +1113,88 @@ def _poisson(a):
         if not np.array_equal(m2, mask):
             bad.append("same arguments and seed gave a different mask")
     return dict(reproduced=bool(bad), detail="; ".join(bad) or "all clauses hold")
+
+
+# ----------------------------------------------------------------------------- C19 Bloch simulators / SLR
+def _bloch(a):
+    import sigpy.mri.rf as rf
+    rs = np.random.RandomState(int(a.get("seed", 0)))
+    sim, Nt, Ns, d = a["sim"], int(a.get("Nt", 16)), int(a.get("Ns", 9)), int(a.get("d", 1))
+    scale = float(a.get("flip", 1.0))
+    pulse = (rs.standard_normal(Nt) + 1j * rs.standard_normal(Nt)) * scale / np.sqrt(Nt)
+    if a.get("zero"):
+        pulse = np.zeros(Nt, dtype=complex)
+    bad = []
+
+    def run(p, g=None):
+        if sim == "abrm":
+            return rf.sim.abrm(p, x1, balanced=bool(a.get("balanced")))
+        if sim == "abrm_nd":
+            return rf.sim.abrm_nd(p, xd, g)
+        if sim == "abrm_hp":
+            return rf.sim.abrm_hp(p, g[:, 0], xd[:, 0], dom0dt=float(a.get("dom0dt", 0.05)))
+        if sim == "blochsim":
+            return rf.optcont.blochsim(p, xd if d > 1 else xd[:, 0], g if d > 1 else g[:, 0])
+        if sim == "abrm_ptx":
+            dim = 3
+            xx, yy = np.meshgrid(np.linspace(-1, 1, dim), np.linspace(-1, 1, dim))
+            xs = np.stack([xx.ravel(), yy.ravel()], 1)
+            b1 = (rs.standard_normal((2, Nt)) + 1j * rs.standard_normal((2, Nt))) * scale * 1e-3
+            if a.get("zero"):
+                b1 = b1 * 0
+            gg = rs.standard_normal((Nt, 2)) * 5
+            out = rf.sim.abrm_ptx(b1, xs, gg, 4e-6, fmap=None, sens=None)
+            return out[0].ravel(), out[1].ravel()
+    x1 = np.linspace(-4, 4, Ns)
+    xd = rs.uniform(-2, 2, size=(Ns, d))
+    g = rs.standard_normal((Nt, d))
+    al, be = run(pulse, g)
+    n = np.abs(al) ** 2 + np.abs(be) ** 2
+    if not np.all(np.isfinite(n)) or np.max(np.abs(n - 1)) > 1e-10:
+        bad.append("|alpha|^2+|beta|^2 deviates from 1 by %g" % float(np.max(np.abs(n - 1))))
+    if a.get("zero"):
+        if np.max(np.abs(be)) > 1e-12 or np.max(np.abs(np.abs(al) - 1)) > 1e-10:
+            bad.append("zero pulse is not the identity rotation up to phase: max|beta|=%g" % float(np.max(np.abs(be))))
+    if a.get("compose") and sim in ("abrm_nd", "abrm_hp", "blochsim"):
+        h = Nt // 2
+        a1, b1_ = run(pulse[:h], g[:h])
+        a2, b2_ = run(pulse[h:], g[h:])
+        # composition of Cayley-Klein parameters: second after first
+        ac = a2 * a1 - np.conj(b2_) * b1_
+        bc = b2_ * a1 + np.conj(a2) * b1_
+        if sim == "abrm_nd":
+            err = max(np.max(np.abs(ac - al)), np.max(np.abs(bc - be)))
+        else:
+            err = max(np.max(np.abs(np.abs(ac) - np.abs(al))), np.max(np.abs(np.abs(bc) - np.abs(be))))
+        if err > 1e-9:
+            bad.append("simulating the concatenation differs from composing the two rotations by %g" % err)
+    return dict(reproduced=bool(bad), detail="; ".join(bad) or "unitary / identity / composition hold")
+
+
+def _slr(a):
+    import sigpy.mri.rf as rf
+    rs = np.random.RandomState(int(a.get("seed", 0)))
+    bad = []
+    if a.get("kind") == "dzrf":
+        n, tb = int(a.get("n", 64)), float(a.get("tb", 4))
+        try:
+            pulse = rf.slr.dzrf(n, tb, a.get("ptype", "st"), a.get("ftype", "ls"), 0.01, 0.01)
+        except Exception as e:
+            return dict(reproduced=False, detail="design raised %s" % e)
+        return dict(reproduced=not np.all(np.isfinite(pulse)), detail="finite pulse")
+    n = int(a.get("n", 16))
+    b = (rs.standard_normal(n) + 1j * rs.standard_normal(n))
+    # scale so that max |B(w)| < 1
+    w = np.linspace(-np.pi, np.pi, 512, endpoint=False)
+    E = np.exp(-1j * np.outer(w, np.arange(n)))
+    Bw = E @ b
+    b = b / np.max(np.abs(Bw)) * float(a.get("peak", 0.7))
+    pulse = rf.slr.b2rf(b)
+    # hard-pulse simulation at the same frequencies: x such that phase per sample = w
+    x = w / (2 * np.pi) * n
+    _, bs = rf.sim.abrm_hp(pulse, np.ones(n) * 2 * np.pi / n, x)       # hard-pulse simulation
+    want = np.abs(E @ b)
+    err = float(np.max(np.abs(np.abs(bs) - want)))
+    if err > float(a.get("tol", 1e-6)):
+        bad.append("simulated |beta| differs from |B(w)| by %g" % err)
+    return dict(reproduced=bool(bad), detail="; ".join(bad) or "inverse SLR reproduces |B| (max dev %g)" % err)
